@@ -111,7 +111,7 @@ def generate(seed, tier="quick"):
     return {"prop": PROPERTY, "shape": shape, "ops": ops, "tasks": tasks, "order": order, "T": T, "dt": o.choice(DTS),
             "solver": o.choice(["bwd_euler", "bwd_euler", "crank_nicolson"]), "vsolver": o.choice(["jaxley.stone", "jaxley.thomas", "jax.sparse"]),
             "mode": o.choice(["eager", "eager", "jit"]), "data_api": o.random() < 0.6, "explicit_tmax": o.random() < 0.6,
-            "geometry_at_runtime": o.choice([0, 0, 1, 2, 3])}
+            "geometry_at_runtime": o.choice([0, 0, 1, 2, 3]), "mixed_static_data": o.random() < 0.5}
 
 
 def build(program, task_order, rewrite=None):
@@ -323,9 +323,17 @@ def execute(program):
         w3 = build(program, canonical, rewrite=drop_moved)
         if not w3.violations and not w3.stopped:
             ds, dc = None, None
+            mixed = bool(program.get("mixed_static_data"))
             with quiet():
-                for t, arr in ref.externals.get("i", []):
+                for j_, (t, arr) in enumerate(ref.externals.get("i", [])):
+                    if mixed and j_ % 2 == 0:
+                        # half of the stimuli stay attached to the module, the other half arrive through data_stimulate
+                        w3.m.select(nodes=[t]).stimulate(jnp.asarray(arr), verbose=False)
+                        continue
                     ds = w3.m.select(nodes=[t]).data_stimulate(jnp.asarray(arr), ds)
+            if mixed and ds is not None and any(j_ % 2 == 0 for j_ in range(len(ref.externals.get("i", [])))):
+                w.bump("probe_static_and_data_stimuli_mixed")
+            with quiet():
                 if data_key:
                     for t, arr in ref.externals[data_key]:
                         v_ = w3.m.select(nodes=[t]) if data_key in ref.comp_states() else w3.m.select(edges=[t])
@@ -402,7 +410,7 @@ def execute(program):
 
 
 def simplify(program):
-    for field, simple in (("solver", "bwd_euler"), ("dt", 0.025), ("mode", "eager"), ("vsolver", "jax.sparse"), ("data_api", False), ("explicit_tmax", False), ("geometry_at_runtime", 0)):
+    for field, simple in (("solver", "bwd_euler"), ("dt", 0.025), ("mode", "eager"), ("vsolver", "jax.sparse"), ("data_api", False), ("explicit_tmax", False), ("geometry_at_runtime", 0), ("mixed_static_data", False)):
         if program.get(field) != simple:
             q = copy.deepcopy(program)
             q[field] = simple
